@@ -17,8 +17,37 @@ from pactisim.env import HarnessError
 
 NC = 6  # contract slots
 NL = 4  # term-list slots
-NAMES = ["x", "y", "z", "u", "v", "w", "t1"]
+BASE_NAMES = ["x", "y", "z", "u", "v", "w", "t1"]
+WIDE_NAMES = BASE_NAMES + ["a", "b", "c", "p", "in_1", "out_22"]
+NAMES = list(BASE_NAMES)
 EXTRA_NAMES = ["q", "r_2", "long_name"]
+STYLE: Dict[str, Any] = {"name": "plain"}
+
+
+def set_style(style: Optional[Dict]) -> None:
+    """Per-run generation style (swarm): part of the plan header, so generation stays a function of the plan."""
+    global NAMES  # noqa: WPS420
+    STYLE.clear()
+    STYLE.update(style or {"name": "plain"})
+    NAMES = list(WIDE_NAMES if STYLE.get("name") == "wide" else BASE_NAMES)
+
+
+def draw_style(rs) -> Dict:
+    r = rs.random()
+    if r < 0.55:
+        return {"name": "plain"}
+    if r < 0.7:
+        return {"name": "wide", "max_terms": 9}
+    if r < 0.8:
+        return {"name": "large", "scales": [1.0, 1e3, 1e5]}
+    if r < 0.9:
+        return {"name": "tiny", "scales": [1.0, 1e-3, 1e-4]}
+    return {"name": "mixed", "scales": [1e-3, 1.0, 1.0, 1e3]}
+
+
+def _scale(rs) -> float:
+    sc = STYLE.get("scales")
+    return float(rs.choice(sc)) if sc else 1.0
 
 # op families named by C13's quantifier
 C13_OPS = [
@@ -196,8 +225,9 @@ def gen_term(rs, names: List[str], must: Optional[List[str]] = None, nvars: Opti
     if must and not any(c in must for c in chosen):
         chosen[0] = rs.choice(must)
     chosen = list(dict.fromkeys(chosen))
-    coeffs = {nm: float(rs.choice(COEFFS)) for nm in chosen}
-    const = float(rs.choice(CONSTS))
+    sc = _scale(rs)
+    coeffs = {nm: float(rs.choice(COEFFS)) * sc for nm in chosen}
+    const = float(rs.choice(CONSTS)) * _scale(rs)
     return lit_term(coeffs, const)
 
 
@@ -205,6 +235,8 @@ def gen_tl(rs, names: List[str], n: Optional[int] = None, must: Optional[List[st
     if not names:
         return {"TL": []}
     n = rs.choice([0, 1, 1, 2, 2, 3, 4]) if n is None else n
+    if STYLE.get("max_terms") and rs.random() < 0.4:
+        n = rs.randrange(4, int(STYLE["max_terms"]) + 1)
     terms = [gen_term(rs, names, must) for _ in range(n)]
     if shapes and terms and rs.random() < 0.45:
         # adversarial shapes: duplicates, parallel rows, opposite rows, boxes
@@ -270,7 +302,7 @@ def gen_initial_pool(rs) -> Dict[str, Dict]:
         cand = [n for n in names if n not in outs]
         pref = [n for n in produced if n not in outs]
         ins: List[str] = []
-        for _ in range(rs.choice([0, 1, 1, 2, 2, 3])):
+        for _ in range(rs.choice([0, 1, 1, 2, 2, 3] + ([4, 5] if STYLE.get("name") == "wide" else []))):
             src = pref if (pref and rs.random() < 0.6) else cand
             nm = rs.choice(src)
             if nm not in ins:
